@@ -34,7 +34,7 @@ def run(rep, tier, seed):
                     continue
             rep.violation(name, 'obligation %s is no longer discharged (%s)' % (name, detail[:200]),
                           replay={'kind': 'obligation', 'obligation': name, 'solver_output': detail[:1500]}, nfi=True)
-    if not res: rep.error('zero obligations generated for C17')
+    if not res and not deg: rep.error('zero obligations generated for C17')
     # the sibling scan itself (over the IR heap, names as opaque values with value equality and an uninterpreted `lower`)
     for fn, o in _pv.run_suite(rep, PID, 'edifnames', tier):
         rep.violation(o['name'], 'obligation %s is no longer discharged (%s)' % (o['name'], (o.get('detail') or '')[:200]),
